@@ -38,5 +38,11 @@ RULES = [
     ("C08.del", lambda c, r: __import__("sa.rules.lfht2", fromlist=["x"]).rule_del(c, r, "C08.del")),
     ("C08.levels", lambda c, r: __import__("sa.rules.lfht2", fromlist=["x"]).rule_levels(c, r, "C08.levels")),
     ("C08.delbucket", lambda c, r: __import__("sa.rules.lfht2", fromlist=["x"]).rule_delete_bucket(c, r, "C08.delbucket")),
+    ("C08.addprev", lambda c, r: __import__("sa.rules.lfht2", fromlist=["x"]).rule_addprev(c, r, "C08.addprev")),
+    ("C08.partloops", lambda c, r: __import__("sa.rules.lfht2", fromlist=["x"]).rule_partloops(c, r, "C08.partloops")),
+    ("C08.createbucket", lambda c, r: __import__("sa.rules.lfht2", fromlist=["x"]).rule_createbucket(c, r, "C08.createbucket")),
+    ("C08.newfields", lambda c, r: __import__("sa.rules.lfht2", fromlist=["x"]).rule_newfields(c, r, "C08.newfields")),
+    ("C08.destroy2", lambda c, r: __import__("sa.rules.lfht2", fromlist=["x"]).rule_destroy2(c, r, "C08.destroy2")),
+    ("C08.explicit_resize", lambda c, r: __import__("sa.rules.lfht2", fromlist=["x"]).rule_explicit_resize(c, r, "C08.explicit_resize")),
 ]
 FLOORS = {}
